@@ -72,4 +72,15 @@ theorem top_authors_total_same (σ σ' : List (String × Git.TopAuthor) → List
     ((Git.topAuthors σ commits).map (·.commitCount)).sum = ((Git.topAuthors σ' commits).map (·.commitCount)).sum := by
   rw [C15.top_authors_conservation σ hσ commits, C15.top_authors_conservation σ' hσ' commits]
 
+/-! ### non-vacuity: the oracle hypothesis is met by real reorderings (identity, reversal, rotation), so the theorems above
+    quantify over schedules that actually differ -/
+example {α : Type} : OracleOK (fun l : List α => l) := oracleOK_id
+example {α : Type} : OracleOK (fun l : List α => l.reverse) := fun l => List.reverse_perm l
+example {α : Type} : OracleOK (fun l : List α => l.tail ++ l.head?.toList) := by
+  intro l
+  cases l with
+  | nil => simp
+  | cons a t => simpa using (List.perm_append_comm (l₁ := t) (l₂ := [a]))
+example : (fun l : List Nat => l.reverse) [1, 2, 3] ≠ [1, 2, 3] := by decide
+
 end CocaVerif.Props.C08
